@@ -272,6 +272,9 @@ def _run_symbolic(fc, res, tier, exclusions):
     if fc.rlimit:
         E.rlimit = fc.rlimit
     E.nl_mode = fc.nl_mode
+    for _opt in ("fb_limit", "fb_first", "cvc5_tlimit_ms"):
+        if getattr(fc, _opt, None) is not None:
+            setattr(E, _opt, getattr(fc, _opt))
     E.budget_s = fc.budget_s
     if fc.wall_ms:
         E.wall_ms = fc.wall_ms
